@@ -55,6 +55,15 @@ ALSO_C20 = {
     'Q1-side': 'bottom-up: selecting from the wrong end of the sorted queue executes dependants first',
     'Q1-comparator': 'bottom-up: reversed comparator executes dependants first',
     'Q4-orientation': 'bottom-up: require-now must run the scheduled tasks the required task depends on',
+    # a task is reused only if every recorded dependency was found consistent: a task reused although a dependency is inconsistent (or its
+    # check failed) keeps the edges of the earlier state, and a later role change aborts on them (seeded C20_6: check errors read as consistent)
+    'VERDICT-origin': 'the verdict on a resource dependency must be the checker\'s answer; anything else reuses tasks whose edges describe an earlier state',
+    'VERDICT-err-propagates': 'a failed check must not read as consistent: the task would be reused with its edges of the earlier state',
+    'TD-check-verdict-tested': 'top-down: the verdict of every dependency check decides between reuse and re-execution',
+    'TD-check-all-deps': 'top-down: a dependency that is never checked lets a stale task (and its edges) be reused',
+    'TD-reuse-guarded': 'top-down: reuse only behind a check that found every dependency consistent',
+    'BU-S3-neg-err': 'bottom-up: a failed check schedules the task; otherwise its edges of the earlier state survive the build',
+    'BU-S3-neg-false': 'bottom-up: an inconsistent dependency schedules the task; otherwise its edges of the earlier state survive the build',
     'TD-check-neg-exit': 'top-down: validation must stop at the first inconsistent dependency; going on makes later (possibly no longer required) tasks consistent '
                          'while the checked task still owns its edges of the earlier state',
 }
